@@ -41,7 +41,7 @@ pub struct Profile {
 }
 
 pub const MIXED: Profile = Profile { name: "mixed", w: [10, 6, 10, 8, 3, 1, 4, 2, 1, 1], adversarial_16: 2, extra_ask_16: 1, funds_games_16: 1, max_pairs: 3, connected: false, hostile: false, special: None };
-pub const SWAPPY: Profile = Profile { name: "swappy", w: [6, 2, 14, 12, 2, 0, 4, 0, 0, 1], adversarial_16: 1, extra_ask_16: 2, funds_games_16: 0, max_pairs: 3, connected: false, hostile: false, special: None };
+pub const SWAPPY: Profile = Profile { name: "swappy", w: [6, 2, 14, 12, 2, 0, 4, 0, 0, 1], adversarial_16: 3, extra_ask_16: 2, funds_games_16: 0, max_pairs: 3, connected: false, hostile: false, special: None };
 pub const SETTLE: Profile = Profile { name: "settlement", w: [6, 2, 12, 14, 2, 1, 2, 0, 0, 0], adversarial_16: 9, extra_ask_16: 1, funds_games_16: 5, max_pairs: 3, connected: false, hostile: false, special: None };
 pub const FUNDS: Profile = Profile { name: "funds", w: [12, 1, 14, 6, 1, 0, 0, 0, 0, 0], adversarial_16: 3, extra_ask_16: 1, funds_games_16: 11, max_pairs: 2, connected: false, hostile: false, special: None };
 pub const LIQUIDITY: Profile = Profile { name: "liquidity", w: [12, 12, 6, 5, 4, 2, 1, 2, 0, 1], adversarial_16: 1, extra_ask_16: 1, funds_games_16: 0, max_pairs: 2, connected: false, hostile: false, special: None };
@@ -132,6 +132,13 @@ pub fn gen_world_cfg(s: &mut Src, prof: &Profile) -> WorldCfg {
             }
         }
     }
+    // holders' balances (and with them every token's total supply) are astronomically larger than any pool in
+    // half of the worlds, and of pool-like magnitude in the others
+    let initial_balance: u128 = match s.weighted(&[2, 1, 1]) {
+        0 => 1u128 << 122,
+        1 => 1u128 << 64,
+        _ => 1u128 << 36,
+    };
     // one world in four is built in stages: its denoms start with other decimals, the first pair is created,
     // the denoms are re-registered with their final decimals and only then the other pairs are created
     let staged_decimals: Vec<u8> = if s.chance(1, 4) { native_decimals.iter().map(|d| if s.bool() { (*d + 1 + s.below(17) as u8) % 19 } else { *d }).collect() } else { vec![] };
@@ -141,7 +148,7 @@ pub fn gen_world_cfg(s: &mut Src, prof: &Profile) -> WorldCfg {
         pairs,
         n_actors: 4,
         n_bystanders: 2,
-        initial_balance: 1u128 << 122,
+        initial_balance,
         allowance: 1u128 << 124,
         denoms,
         unregistered: vec![],
@@ -606,7 +613,15 @@ pub fn gen_allowance(w: &World, s: &mut Src, _prof: &Profile) -> Step {
 pub fn gen_forged(w: &World, s: &mut Src, _prof: &Profile) -> Step {
     let actor = w.actors[s.idx(w.actors.len())].to_string();
     let p = s.idx(w.pairs.len());
-    match s.below(5) {
+    match s.below(7) {
+        5 | 6 => {
+            // a cw20 ASSET token (not the LP token) delivers the withdraw hook: `Send` of the asset to the pair
+            // with the WithdrawLiquidity payload, of any magnitude up to the actor's balance
+            let tok = w.tokens[s.idx(w.tokens.len())].addr.to_string();
+            let bal = w.cw20_balance(&tok, &actor);
+            let amt = amount(s, bal).max(1);
+            Step { sender: actor, call: Call::Cw20 { token: tok, msg: Cw20ExecuteMsg::Send { contract: w.pairs[p].addr.to_string(), amount: Uint128::new(amt), msg: to_binary(&PairHook::WithdrawLiquidity {}).unwrap() } }, funds: vec![] }
+        }
         0 => Step { sender: actor, call: Call::Pair { pair: p, msg: PairExec::UpdateNativeTokenDecimals { denom: w.natives[0].clone(), asset_decimals: [s.below(19) as u8, s.below(19) as u8] } }, funds: vec![] },
         1 => Step {
             sender: actor.clone(),
